@@ -24,6 +24,11 @@ class TrieDict(object):
         self.__root = TrieDictNode()
 
     def __len__(self):
+        # NOTE: node counters only track descendants, so the value stored
+        # under the empty prefix (i.e. on the root) must be counted here
+        if self.__root.value is not NULL:
+            return self.__root.counter + 1
+
         return self.__root.counter
 
     def __setitem__(self, prefix, value):
